@@ -24,6 +24,12 @@ var solvers = []solverSpec{
 	{"cvc5", func(t int, f string) []string {
 		return []string{"cvc5", fmt.Sprintf("--tlimit=%d", t*1000), "--enum-inst", "--produce-models", f}
 	}},
+	// z3 5.x translating bit-vector constraints to integer arithmetic: decides
+	// index arithmetic over sums of offsets (slice re-slicing, append) in
+	// seconds where bit-blasting runs out of time
+	{"z3-new-int", func(t int, f string) []string {
+		return []string{"z3-new", fmt.Sprintf("-T:%d", t), "smt.bv.solver=2", f}
+	}},
 	// cvc5 translating bit-vectors to integers: decides linear index arithmetic
 	// with constant strides that bit-blasting cannot
 	{"cvc5-int", func(t int, f string) []string {
@@ -38,7 +44,19 @@ type solveResult struct {
 	secs   float64
 }
 
+// qfOnly: solvers whose answers are only used on quantifier-free queries.
+// z3's integer translation of bit-vectors (smt.bv.solver=2) answered "unsat"
+// on a satisfiable query with quantified hypotheses over uninterpreted
+// functions (both bit-blasting z3 versions found a model; cvc5 refuses the
+// combination outright), so it never sees a quantifier.
+var qfOnly = map[string]bool{"z3-new-int": true}
+
 func runSolver(sp solverSpec, file string, timeoutS int) solveResult {
+	if qfOnly[sp.name] {
+		if data, err := os.ReadFile(file); err != nil || bytes.Contains(data, []byte("(forall ")) || bytes.Contains(data, []byte("(exists ")) {
+			return solveResult{"unknown", sp.name, "skipped: query has quantifiers", 0}
+		}
+	}
 	ctx, cancel := context.WithTimeout(context.Background(), time.Duration(timeoutS+3)*time.Second)
 	defer cancel()
 	args := sp.args(timeoutS, file)
@@ -201,7 +219,7 @@ func Discharge(obls []*Obl, timeoutS int, confirm bool, workers int) (disagreeme
 			// for proving, and quantifier-free queries are decided quickly
 			o2 := *o
 			o2.DropQuantified = true
-			g, _ := decide(dir, i+2000000, o2.Query(false), 15, false)
+			g, _ := decide(dir, i+2000000, o2.Query(false), 25, false)
 			if g.status == "unsat" {
 				o.Result, o.Solver, o.TimeS = "unsat", g.solver+"(ground)", g.secs
 				return
